@@ -456,7 +456,10 @@ func run(c *mon.Ctx) {
 		"Each case is encoded by the library with and without LZ4 (bytes judged by segref's strict parser and own LZ4 decoder, then decoded by the library) and, in reverse, built by segref " +
 		"(plain, LZ4 fallback form, LZ4 blocks from segref's own encoder incl. single-overlapping-match and literal-only blocks) and decoded by the library. " +
 		"quick: lengths {0..300, 2^k-1..2^k+1, 65535..65537, 131000..131071} x flag x 5 classes + refusal lengths {131072,131073,2^18,2^20}; " +
-		"thorough: every length 0..131071 x flag with a rotating class (library-encodes direction for all of them, segref-builds direction for every 4th length), plus the quick list. A signature is (direction, format/encoder, length, flag, class, compressed-or-fallback)."
+		"thorough: every length 0..131071 x flag with a rotating class (library-encodes direction for all of them, segref-builds direction for every 4th length), plus the quick list. A signature is (direction, format/encoder, length, flag, class, compressed-or-fallback). " +
+		"Sequences (quick 400, thorough 20000 indices x {plain, lz4} x {bytes.Reader, 3-bytes-per-Read reader}): 6..14 segments of repeating/shrinking/growing lengths and different contents, in every wire form of the format " +
+		"(library-encoded, segref plain / LZ4 fallback / LZ4 block), encoded by ONE codec instance into separate buffers and decoded by ONE codec instance from one stream; every earlier output / returned payload / returned header is " +
+		"re-verified byte for byte after each later call, and after the caller overwrites each returned payload."
 	c.Assume("segref (bitwise CRC-24/CRC-32, header bit packing, LZ4 block codec) is correct; it is pinned by external vectors in internal/segref/segref_test.go (CRC catalogue check value, Cassandra/Java-driver snapshots, hand-assembled blocks)")
 	c.Assume("the 'not compressed' signal inside the LZ4 format is uncompressed-length field = 0 with the payload length in the first field (Cassandra's FrameEncoderLZ4/FrameDecoderLZ4 and DESIGN.md §C06); the sentence in native_protocol_v5.spec §2.3.2 says 'compressed length to 0', which cannot carry a payload length and is taken as a typo")
 	c.Assume("a sender may compress or fall back at its discretion (spec §2.3.2): which of the two forms the library picks is counted, not judged")
@@ -469,11 +472,18 @@ func run(c *mon.Ctx) {
 	}
 
 	if c.Replay != "" {
-		var d detail
+		var d struct {
+			detail
+			Sequence *seqCase `json:"sequence"`
+		}
 		if err := c.ReplayDetail(&d); err != nil {
 			c.Fatal("replay: %v", err)
 		}
-		ck.runCase(d.Case)
+		if d.Sequence != nil {
+			ck.runSequence(*d.Sequence)
+		} else {
+			ck.runCase(d.Case)
+		}
 		return
 	}
 
@@ -504,6 +514,8 @@ func run(c *mon.Ctx) {
 	// length) keeps all workers busy because the long tail is many cases, not one
 	mon.Parallel(len(cases), func(i int) { ck.runCase(cases[len(cases)-1-i]) })
 
+	ck.runSequences(c.Pick(400, 20000))
+
 	ck.crcMonitor(c.Pick(1000000, 4000000))
 
 	// did the run exercise what the statement is about?
@@ -513,6 +525,9 @@ func run(c *mon.Ctx) {
 	}
 	if c.Counter("forward_lz4_fallback") == 0 || c.Counter("forward_lz4_compressed") == 0 {
 		c.Inconclusive("the library never produced both the compressed and the fallback form")
+	}
+	if c.Counter("sequence_segments") == 0 {
+		c.Inconclusive("no decode sequence on a single codec instance completed")
 	}
 	if c.Counter("refusals_expected") == 0 {
 		c.Inconclusive("no oversized payload was tried")
